@@ -77,8 +77,8 @@ def patch_modules():
         def _version_or_exc(name):
             try:
                 return (True, _v(name))
-            except ilm.PackageNotFoundError as exc:
-                return (False, exc)
+            except ilm.PackageNotFoundError:
+                return (False, None)
 
         def version(name):
             ok, val = _version_or_exc(name)
@@ -86,7 +86,7 @@ def patch_modules():
             if ok:
                 return val
 
-            raise val
+            raise ilm.PackageNotFoundError(name)     # a fresh instance: a cached one would collect the frames of every caller in its traceback
 
         version.cache_info = _version_or_exc.cache_info
         ilm.version = version
@@ -619,8 +619,47 @@ def execute(scn, prefix=(), base_order='fifo', keep_world=False):
 
     if keep_world:
         r.world = w
+    else:
+        scrub(w, zq)
 
     return r
+
+
+def scrub(w, zq):
+    """Break the reference cycles of a finished execution (threads <-> procs <-> world <-> sockets <-> frames held by the
+    tracebacks of Killed / scripted exceptions): workers run hundreds of thousands of executions."""
+
+    zq.ZMQContext.context = (None, 0)
+
+    for p in w.procs:
+        if p.result is not None and isinstance(p.result[1], BaseException):
+            p.result[1].__traceback__ = None
+
+        p.result = p.fn = p.wait = p.wake = None
+        p.thread.proc = None
+        p.thread._target = None
+        p.user.clear()
+        p.sockets.clear()
+
+    for so in w.net.all_sockets:
+        so.inbox.clear()
+        so.out_pipes.clear()
+        so.in_pipes.clear()
+        so.owner = None
+
+    for pipe in w.net.pipes:
+        pipe.flight.clear()
+        pipe.src = pipe.dst = None
+
+    w.net.pipes.clear()
+    w.net.all_sockets.clear()
+    w.net.bound.clear()
+    w.net.subs.clear()
+    w.net.pp.clear()
+    w.procs.clear()
+    w.timers.clear()
+    w.fault_menu = w.done_pred = w.fp_extra = None
+    w.error = None
 
 
 # ---- fault menus ------------------------------------------------------------------------------------------------------
